@@ -128,13 +128,19 @@ def rand_grid(rng, shape, types, colors, p_floor=0.45):
     h, w = shape
     types = list(types)
     rows = []
+    # a third of the grids reuse one instance for all their floors and one for all their walls (what `[Wall()] * n` or a
+    # constant factory produce): objects without mutable status may be shared between cells
+    pool = {} if rng.random() < 0.33 else None
     for _ in range(h):
         row = []
         for _ in range(w):
             if Floor in types and rng.random() < p_floor:
-                row.append(Floor())
+                o = Floor()
             else:
-                row.append(rand_obj(rng, types, colors))
+                o = rand_obj(rng, types, colors)
+            if pool is not None and type(o) in (Floor, Wall):
+                o = pool.setdefault(type(o), o)
+            row.append(o)
         rows.append(row)
     return Grid(rows)
 
